@@ -623,4 +623,40 @@ def localWfItems : Items → Bool
 end
 
 
+/-! ### the class of the two-way theorem encoder <-> reference (Lemmas/RefConv) -/
+
+/-- bit widths the chunk encoder can hold: at most 64 -/
+def bfNarrow : BitField → Bool
+  | .scalar _ w => decide (w ≤ 64)
+  | .count _ w => decide (w ≤ 64)
+  | _ => true
+
+
+/-! ### the class: C03's hypotheses plus widths the encoder's integer types can hold -/
+
+mutual
+def convWfTy : Ty → Bool
+  | .scalar w => w % 8 == 0 && decide (w ≤ 64)
+  | .enumTy _ e => e.width % 8 == 0
+  | .custom _ w => w % 8 == 0
+  | .struct _ (.root _ items) => convWfItems items && refWfItems items items && lenWfItems items && decide ((arrayIds items).Nodup)
+  | .struct _ (.derived ..) => false
+def convWfItem : Item → Bool
+  | .chunk fs => fs.all bfNarrow
+  | .typedef _ ty _ => convWfTy ty
+  | .optional _ ty _ _ => convWfTy ty
+  | .array _ elem _ _ _ => convWfTy elem
+  | .payload _ => true
+def convWfItems : Items → Bool
+  | .nil => true
+  | .cons i r => convWfItem i && convWfItems r
+end
+
+
+/-- the class of the two-way theorem, for packets and structs without parent -/
+def convWfBody : Body → Bool
+  | .root nm items => convWfTy (.struct nm (.root nm items))
+  | .derived .. => false
+
+
 end Pdlv
